@@ -291,6 +291,7 @@ Proof.
   - intros H; inversion H; subst; auto.
   - intros H; inversion H; subst; auto.
   - intros H; inversion H; subst; auto.
+  - intros H; inversion H; subst; auto.
 Qed.
 
 Theorem reachable_life_ok ops : forall m, life_ok m -> Forall valid_op ops -> life_ok (final_state m ops).
@@ -362,6 +363,7 @@ Proof.
   - intros H Hi Hn; inversion H; subst; auto.
   - intros H Hi Hn; inversion H; subst; auto.
   - intros H Hi Hn; inversion H; subst; auto.
+  - intros H Hi Hn; inversion H; subst; auto.
 Qed.
 
 (* every fill record of a step names two orders that were resting (on their sides) when the round began, is
@@ -385,6 +387,7 @@ Proof.
     repeat split; auto.
   - pose proof (tick_records m f) as TR. destruct (tick m f) as [m1 rs1]. cbn [snd] in TR. inversion H; subst.
     apply in_map_iff in Hin. destruct Hin as [x [C _]]. discriminate.
+  - inversion H; subst. destruct Hin.
   - inversion H; subst. destruct Hin.
   - inversion H; subst. destruct Hin.
   - inversion H; subst. destruct Hin.
@@ -489,6 +492,7 @@ Proof.
     rewrite (apply_fills_logs _ _ _ _ _ EA). apply accepted_ids_fills.
   - pose proof (tick_records m f) as TR. pose proof (tick_next m f) as TN. destruct (tick m f) as [m1 rs1]. cbn [fst snd] in TR, TN.
     intros H; inversion H; subst. left. split; auto. apply accepted_ids_expiries.
+  - intros H; inversion H; subst; auto.
   - intros H; inversion H; subst; auto.
   - intros H; inversion H; subst; auto.
   - intros H; inversion H; subst; auto.
